@@ -172,7 +172,7 @@ Proof.
   assert (Hn : (1 <= Z.to_nat n)%nat) by lia.
   assert (Hg : 0 < gsum r (Z.to_nat n)) by (apply gsum_pos; [lra|assumption]).
   assert (Hs : forall s, s * gsum r (Z.to_nat n) = L -> 0 < s) by (intros; nra).
-  unfold Rltb. destruct (Rlt_dec tau (Rabs (r - 1))) as [Hb|Hb].
+  unfold Rltb in *. destruct (Rlt_dec tau (Rabs (r - 1))) as [Hb|Hb]; inv_guards.
   - assert (Hr1 : r <> 1). { intros ->. replace (1 - 1) with 0 in Hb by ring. rewrite Rabs_R0 in Hb. lra. }
     assert (Hp : r ^ Z.to_nat n <> 1) by (apply pow_ne_1; assumption).
     assert (Heq : L * (1 - r) / (1 - powerRZ r n) * gsum r (Z.to_nat n) = L).
